@@ -54,6 +54,8 @@ package casblob
 //@   modifies ioState()
 //@   requires[C02] offset: offset == 0 || (0 < offset && offset < expectedSize)
 //@   ensures[C14] oneof: (result1 == nil) <==> (result0 != nil)
+//@   ensures[C14] fileowned: (fcloseN == old(fcloseN) + 1 && fclosed == ref(f)) ||
+//@       (fcloseN == old(fcloseN) && result1 == nil && (result0 == iface(f) || (istype(result0, "*readCloserWrapper") && as(result0, "*readCloserWrapper").file == f)))
 
 //@ func GetZstdReadCloser(zstd zstdimpl.ZstdImpl, f *os.File, expectedSize int64, offset int64) (io.ReadCloser, error)
 //@   serves C02 C14 C20
@@ -61,6 +63,8 @@ package casblob
 //@   modifies ioState()
 //@   requires[C02] offset: offset == 0 || (0 < offset && offset < expectedSize)
 //@   ensures[C14] oneof: (result1 == nil) <==> (result0 != nil)
+//@   ensures[C14] fileowned: (fcloseN == old(fcloseN) + 1 && fclosed == ref(f)) ||
+//@       (fcloseN == old(fcloseN) && result1 == nil && (result0 == iface(f) || (istype(result0, "*readCloserWrapper") && as(result0, "*readCloserWrapper").file == f)))
 
 //@ func GetLegacyZstdReadCloser(zstd zstdimpl.ZstdImpl, f *os.File) (io.ReadCloser, error)
 //@   trusted
